@@ -88,11 +88,20 @@ def gen_world(rng):
             else:
                 lim = abs(anchor[1]) + rho * (tc - anchor[0])
                 e_c = lim * rng.choice([1, -1, 1, -1, Fraction(1, 2), 0])
-            real = math.floor(tc + OFF + e_c)
-            mono = tc + rng.choice([0, 0, 1000, 10 ** 6, 10 ** 8])     # the monotonic clock is read later
-            items.append(("C", real, mono))
-            truth.append(tc + OFF)
-            t = max(t, mono) + rng.choice([1, NS, 2 * NS])
+            # the two clock reads of now() happen at true instants tc and tc + g (preemption between them);
+            # the realtime clock's error keeps moving along the edge of the drift cone meanwhile
+            g = rng.choice([0, 0, 1000, 10 ** 6, 10 ** 8, 250 * 10 ** 6, 2 * NS])
+            if anchor is None:
+                e_c2 = e_c
+            else:
+                sign = 1 if e_c > 0 else (-1 if e_c < 0 else rng.choice([1, -1]))
+                e_c2 = e_c + sign * rho * g
+            real1, mono1 = math.floor(tc + OFF + e_c), tc
+            real2, mono2 = math.floor(tc + g + OFF + e_c2), tc + g
+            items.append(("C", real1, mono1, real2, mono2))
+            # the interval is a claim about true time at the instant the realtime clock was read
+            truth.append((tc + OFF, tc + g + OFF))
+            t = max(t, mono2) + rng.choice([1, NS, 2 * NS])
         else:
             items.append(("R", t))
             truth.append(None)
@@ -105,6 +114,12 @@ def line_of(drift, cfg, items):
     return "wld %d %d %d %s" % (drift, cfg, len(items), " ".join(" ".join(str(x) for x in it) for it in items))
 
 
+def model_line_of(drift, cfg, items):
+    """the model's client reads realtime first and the monotonic clock afterwards: (real1, mono2)"""
+    its = [(it[0], it[1], it[4]) if it[0] == "C" else it for it in items]
+    return "wld %d %d %d %s" % (drift, cfg, len(its), " ".join(" ".join(str(x) for x in it) for it in its))
+
+
 def judge(items, truth, out):
     bad = []
     toks = out.split()
@@ -113,8 +128,10 @@ def judge(items, truth, out):
             if o in ("c:panic", "p:TIMEOUT", "p:panic"):
                 bad.append("pipeline failure: " + o)
             continue
-        _, _, e, l, st = o.split(":")
+        _, _, e, l, st, order = o.split(":")
         e, l, st = int(e), int(l), int(st)
+        # true time at the instant the realtime clock was read: the first or the second read of the call
+        tr = tr[0] if order.startswith("R") else tr[1]
         if st in (1, 2) and not (e - SLACK <= tr <= l + SLACK):
             side = "below earliest by %d ns" % (e - tr) if tr < e else "above latest by %d ns" % (tr - l)
             bad.append("client got status %d and interval [%d, %d] but true time %d is %s" % (st, e, l, tr, side))
@@ -129,7 +146,7 @@ def run(res, proofs_ok, proofs_why, only=None):
     worlds = [gen_world(rng) for _ in range(150 if res.tier == "quick" else 20000)]
     lines = [line_of(w[0], w[1], w[2]) for w in worlds]
     impl = c.run_lines_in_namespace(binary, lines, timeout=3000)
-    model = c.run_model(lines)
+    model = c.run_model([model_line_of(w[0], w[1], w[2]) for w in worlds])
     res.rule = ("worlds of 4..22 events (poll iterations of every outcome class, client calls, daemon restarts); the clock error follows the edge of the drift cone in 2/3 of the "
                 "client calls; non-trivial = world with at least one client call that returned Synchronized or FreeRunning after a synchronised report")
     diffs, bad = [], []
@@ -142,7 +159,9 @@ def run(res, proofs_ok, proofs_why, only=None):
         res.count("restarts", sum(1 for x in toks if x == "r"))
         if trusted:
             res.nontriv(ln)
-        if [x for x in toks if not x.startswith("ORDER")] != m.split():
+        # the order of the clock reads (last field of a client result) is judged by the oracle, the rest is compared
+        canon = [x.rsplit(":", 1)[0] if x.startswith("c:") else x for x in toks if not x.startswith("ORDER")]
+        if canon != m.split():
             diffs.append({"case": ln, "impl": i, "model": m})
         why = judge(w[2], w[3], i)
         if why:
@@ -170,17 +189,18 @@ def replay(res, path):
     case = r.get("case") or r.get("first_differences", [{}])[0]
     ln = case["case"]
     i = c.run_lines_in_namespace(c.build_harness("debug")[0], [ln])[0]
-    m = c.run_model([ln])[0]
+    t = ln.split()
+    items, k = [], 4
+    for _ in range(int(t[3])):
+        n = {"P": 15, "C": 5, "R": 2}[t[k]]
+        items.append(tuple([t[k]] + [int(x) for x in t[k + 1:k + n]]))
+        k += n
+    m = c.run_model([model_line_of(int(t[1]), int(t[2]), items)])[0]
     print("world %s\nimpl  %s\nmodel %s" % (ln, i, m))
     truth = case.get("true_time")
     if truth:
-        t = ln.split()
-        items, k = [], 4
-        for _ in range(int(t[3])):
-            n = {"P": 15, "C": 3, "R": 2}[t[k]]
-            items.append(tuple([t[k]] + [int(x) for x in t[k + 1:k + n]]))
-            k += n
-        why = judge(items, truth, i)
+        why = judge(items, [tuple(x) if isinstance(x, list) else x for x in truth], i)
         print("containment: %s" % (why or "holds"))
         return 1 if why else 0
-    return 0 if [x for x in i.split() if not x.startswith("ORDER")] == m.split() else 1
+    canon = [x.rsplit(":", 1)[0] if x.startswith("c:") else x for x in i.split() if not x.startswith("ORDER")]
+    return 0 if canon == m.split() else 1
